@@ -63,7 +63,13 @@ PROPS = {
     'C12': dict(units=['loop'], level='proof', trusted_base=TB_LOOP, assumptions=AS_LOOP, witness='loop'),
     'C20': dict(units=['loop'], level='proof', trusted_base=TB_LOOP, assumptions=AS_LOOP, witness='loop'),
     'C14': dict(units=['converter', 'mapper', 'glue'], level='proof', trusted_base=TB_MAPPER + TB_CONV[4:], assumptions=AS_CONV + AS_MAPPER, witness='loader'),
-    'C13': dict(units=['converter'], level='proof', trusted_base=TB_CONV, assumptions=AS_CONV, witness='loader'),
+    'C13': dict(units=['converter'], level='proof', trusted_base=TB_CONV + [
+                    'E5 accessors: CHAR_ACCESS_MAP.get / US_KEYBOARD_LAYOUT.get are assumed to be functions of their argument (uninterpreted cam_entry / ukl_row); that these functions ARE the US-QWERTY layout is decided by the complete enumeration tables_enum (every Unicode scalar value, every row), reported as enumerative',
+                    'assumed contract on <Vec<T> as Extend<&T>>::extend (appends the items the argument yields; a &Vec yields its elements in order), used for the trigger-side and output-side key lists'],
+                assumptions=AS_CONV + [
+                    'NOT under contract (named, unproved): find_alias_mappings (which definitions the table lists for an alias name, in which order: the claims are relative to the table it returns), the meaning of "the same trigger set" in the repeat-only pass (FromSet: sort + HashMap; only its frame is proved: triggers/outputs untouched, only identity mappings appended), the repeat and absorbing fields of the produced mappings, and the equivalence of spellings (parser, out of reach)',
+                    'an alias name that occurs twice among the trigger modifiers is resolved on the output side to its LAST trigger-side occurrence (what the code does; the statement does not say)'],
+                witness='loader', extras=['tables_enum']),
     'C17': dict(units=['udev'], level='proof', extras=['udev_enum'], witness=None,
                 trusted_base=TB_COMMON[:2] + [
                     'the specification of systemd\'s ExecStart parsing in /verif/spec/sd.rs (written from systemd.syntax(7) / systemd.service(5): word splitting at unquoted whitespace, quotes, C-style escapes, lone `;`, %% and $$); octal and \\U escapes are treated as not accepted, which only makes the oracle stricter',
